@@ -30,7 +30,7 @@ META = {
              'distinct = digest(spec, model)'),
     'assumptions': ['the MAL printer emits the language the spec denotes (C04)',
                     'like-for-like comparison: routes that load the model from a file rely on save/load preserving the model (C07)'],
-    'shards': {'quick': 4, 'thorough': 16},
+    'shards': {'quick': 8, 'thorough': 16},
     'quotas': {
         'quick': {'inprocess-pairs': 100, 'child-processes': 5, 'digests-compared': 500, 'route:wrapper-mal-json/analysed': 10,
                   'route:wrapper-mar-yml/bare': 10, 'inputs-unchanged-checks': 100,
@@ -97,6 +97,17 @@ def inprocess(case, res, count=True):
     f = unchanged('attach_attackers + analysis')
     if f:
         return f
+    # the other graph of the same model (generated later) is untouched, and the first graph refers to its own nodes only
+    if canon(g2._to_dict()) != d2:
+        return ('determinism:attach-or-analysis-changes-another-graph', 'attach_attackers / analysis on one graph changed the serialised form of another graph generated from the same model')
+    own = {id(n) for n in g1.nodes}
+    for t in g1.attackers:
+        for n in list(t.entry_points) + list(t.reached_attack_steps):
+            if id(n) not in own:
+                return ('determinism:node-shared-by-two-graphs', 'after attach_attackers the first graph\'s attacker %r refers to a node that is not one of its nodes' % t.name)
+    for n in g2.nodes:
+        if n.compromised_by:
+            return ('determinism:node-shared-by-two-graphs', 'a node of the second graph is compromised after attach_attackers on the first')
     # a fresh generation after analysing another graph is still the same
     try:
         g3 = built.attack_graph()
